@@ -322,10 +322,14 @@ func init() {
 
 	// ---- expr-lang: not encodable ----
 	// NewExprCondition itself is interpreted from its real body; only the expr-lang calls inside it are
-	// stubbed: options are opaque, Compile yields a nil program (any evaluation that reaches expr.Run is
-	// cut and counted).
+	// stubbed: options are opaque, Compile yields a fresh opaque program (any evaluation that reaches
+	// expr.Run is cut and counted).
 	intrinsics["github.com/expr-lang/expr.Compile"] = func(e *Exec, fn *ssa.Function, a []Value, c *Frame) Value {
-		return TupleV{PtrV{}, IfaceV{}}
+		// a fresh, opaque program object per call (as the real compiler returns): identity of programs
+		// is observable (program caches), their content is not (Run is cut)
+		pt := fn.Signature.Results().At(0).Type().(*types.Pointer)
+		o := e.newObj(e.zero(pt.Elem()), pt.Elem())
+		return TupleV{PtrV{obj: o}, IfaceV{}}
 	}
 	cutExpr := func(e *Exec, fn *ssa.Function, a []Value, c *Frame) Value {
 		panic(pathEnd{"cut", "expr-lang " + fn.Name() + " (general expression engine is outside the encodable code)"})
